@@ -57,6 +57,8 @@ func VC_C05_seq_step() {
 	verifReached("C05.step")
 }
 
+var vIdxNames = [6]string{"idx0", "idx1", "idx2", "idx3", "idx4", "idx5"}
+
 func vConc(T, C int) {
 	n := verifChoice("n", 4) + 1
 	m := vMatcher(n)
@@ -77,6 +79,9 @@ func vConc(T, C int) {
 		})
 	}
 	verifJoin()
+	for a := 0; a < N && a < 6; a++ {
+		verifWitness(vIdxNames[a], uint64(idx[a]))
+	}
 	for a := 0; a < N; a++ {
 		verifAssert(idx[a] >= 0 && idx[a] < n, "C05.conc.in-range")
 		for b := 0; b < N; b++ {
